@@ -62,6 +62,7 @@ type Ctx struct {
 	nreplay     int
 	replayCase  string
 	sampleKeys  map[string]int
+	collect     *CaseResult
 }
 
 // LoadReplay switches the context to replay mode: seed and tier come from the replay file and
@@ -165,6 +166,14 @@ func (c *Ctx) Extra(key string, v any) { c.mu.Lock(); c.extra[key] = v; c.mu.Unl
 // Eval records one evaluated case. key, if non-empty, identifies a distinct non-trivial case.
 func (c *Ctx) Eval(key string) {
 	c.mu.Lock()
+	if c.collect != nil {
+		c.collect.Evals++
+		if key != "" {
+			c.collect.Keys = append(c.collect.Keys, key)
+		}
+		c.mu.Unlock()
+		return
+	}
 	c.evaluations++
 	if key != "" {
 		c.distinct[key] = struct{}{}
@@ -174,24 +183,46 @@ func (c *Ctx) Eval(key string) {
 
 func (c *Ctx) EvalN(n int64) {
 	c.mu.Lock()
+	if c.collect != nil {
+		c.collect.Evals += n
+		c.mu.Unlock()
+		return
+	}
 	c.evaluations += n
 	c.mu.Unlock()
 }
 
 func (c *Ctx) Distinct(key string) {
 	c.mu.Lock()
+	if c.collect != nil {
+		c.collect.Keys = append(c.collect.Keys, key)
+		c.mu.Unlock()
+		return
+	}
 	c.distinct[key] = struct{}{}
 	c.mu.Unlock()
 }
 
 func (c *Ctx) Count(name string, n int64) {
 	c.mu.Lock()
+	if c.collect != nil {
+		c.collect.Counts[name] += n
+		c.mu.Unlock()
+		return
+	}
 	c.counters[name] += n
 	c.mu.Unlock()
 }
 
 func (c *Ctx) Max(name string, n int64) {
 	c.mu.Lock()
+	if c.collect != nil {
+		if n > c.collect.Maxes[name] {
+			c.collect.Maxes[name] = n
+		}
+		c.mu.Unlock()
+		return
+	}
 	if n > c.counters[name] {
 		c.counters[name] = n
 	}
@@ -217,6 +248,14 @@ func (c *Ctx) Sample(v any) {
 // one case of each kind instead of the first few of one kind.
 func (c *Ctx) SampleKey(key string, v any) {
 	c.mu.Lock()
+	if c.collect != nil {
+		if len(c.collect.Samples) < 4 {
+			b, _ := json.Marshal(v)
+			c.collect.Samples = append(c.collect.Samples, CaseSample{key, b})
+		}
+		c.mu.Unlock()
+		return
+	}
 	if c.sampleKeys == nil {
 		c.sampleKeys = map[string]int{}
 	}
@@ -229,6 +268,11 @@ func (c *Ctx) SampleKey(key string, v any) {
 
 func (c *Ctx) Inconclusive(what string) {
 	c.mu.Lock()
+	if c.collect != nil {
+		c.collect.Inconclusive = append(c.collect.Inconclusive, what)
+		c.mu.Unlock()
+		return
+	}
 	c.inconcl++
 	c.mu.Unlock()
 	fmt.Printf("INCONCLUSIVE property=%s %s\n", c.ID, what)
@@ -240,6 +284,16 @@ func (c *Ctx) Inconclusive(what string) {
 func (c *Ctx) Violation(caseID, scenario, symptom string, witness any) {
 	c.mu.Lock()
 	defer c.mu.Unlock()
+	if c.collect != nil {
+		if len(c.collect.Viol) < 10 {
+			b, err := json.Marshal(witness)
+			if err != nil {
+				b, _ = json.Marshal(fmt.Sprint(witness))
+			}
+			c.collect.Viol = append(c.collect.Viol, CaseViol{caseID, scenario, symptom, b})
+		}
+		return
+	}
 	if scenario != "" {
 		for _, f := range c.findings {
 			if f.Property == c.ID && f.Status == "known" && f.Scenario == scenario && f.Symptom == symptom {
